@@ -182,6 +182,13 @@ of_status_t	of_ldpc_staircase_set_fec_parameters (of_ldpc_staircase_cb_t*	ofcb,
 			params->N1))
 		goto error;
 	}
+	if (params->prng_seed < 1 || params->prng_seed > 0x7FFFFFFE)
+	{
+		/* the RFC 5170 PRNG only accepts seeds in {1 .. 2^31-2} (otherwise it silently keeps its previous state) */
+		OF_PRINT_ERROR(("of_ldpc_staircase_set_fec_parameters: invalid prng_seed value (%d), must be in {1..0x7FFFFFFE}.\n",
+			params->prng_seed))
+		goto error;
+	}
 	if ((ofcb->nb_source_symbols = params->nb_source_symbols) > ofcb->max_nb_source_symbols)
 	{
 		OF_PRINT_ERROR(("of_ldpc_staircase_set_fec_parameters: ERROR, invalid nb_source_symbols parameter (got %d, maximum is %d)\n",
